@@ -34,6 +34,7 @@ type Unit struct {
 	Payload []byte // the unit's bytes as carried in TS payloads, without trailing 0xFF padding
 	TailPad bool   // PSI only: fill the last packet with 0xFF after the payload instead of adaptation stuffing
 	Plan    []PktPlan
+	TSC     uint8 // transport_scrambling_control of the unit's packets (the library does not descramble: the bytes are what they are)
 
 	PES      *astits.PESData      // expected decoding (PES units)
 	Sections []*astits.PSISection // expected decoding (PSI units), in order
@@ -380,6 +381,7 @@ func Mux(perPID map[uint16][]*Unit, order []uint16, cc0 map[uint16]uint8) *Strea
 		pp := u.Plan[c.pi]
 		last := c.pi == len(u.Plan)-1
 		pkt := BuildPacket(pid, c.cc, c.pi == 0, u.Payload[c.off:c.off+pp.N], pp.AF, last && u.TailPad)
+		pkt.Header.TransportScramblingControl = u.TSC
 		idx := len(s.Packets)
 		if c.pi == 0 {
 			u.FirstPkt = idx
